@@ -156,6 +156,38 @@ class Model:
         return self.freeze(client, mgr, module), inside, raised, f1 + f2
 
 
+def manager_closure(prog: Program, universe=None):
+    """Explore the manager's subscription state alone under ARBITRARY control frames (any of the four kinds, any
+    symbolic type, in any order - raw clients are not bound by the Python client's refusals).
+    -> (states, transitions, violations[(code, text, trace)])"""
+    U = universe or [ALL, Sym("a"), Sym("b")]
+    m = Model(prog, U)
+    init = (frozenset(), frozenset())
+    seen, queue, viol, trans = {init}, deque([init]), [], 0
+    kinds = ["MDF_SUBSCRIBE", "MDF_UNSUBSCRIBE", "MDF_PAUSE_SUBSCRIPTION", "MDF_RESUME_SUBSCRIPTION"]
+    while queue:
+        st = queue.popleft()
+        for k in kinds:
+            for sym in U:
+                client, mgr, module = m.mk((frozenset(), frozenset(), False, st[0], st[1]))
+                m.deliver(mgr, module, [(k, sym)])
+                fz = m.freeze(client, mgr, module)
+                s2 = (fz[3], fz[4])
+                trans += 1
+                trace = f"Module.subs={sorted(map(str, st[0]))} registered={sorted(map(str, st[1]))} --{k[4:]}({sym})--> Module.subs={sorted(map(str, s2[0]))} registered={sorted(map(str, s2[1]))}"
+                bad = []
+                if set(s2[0]) != set(s2[1]):
+                    bad.append(("index", "Module.subs is not the inverse index of the subscription table"))
+                if ALL in s2[1] and len(s2[1]) > 1:
+                    bad.append(("double", "module registered for ALL_MESSAGE_TYPES and for an individual type at once (it would receive that type twice)"))
+                for code, text in bad:
+                    viol.append((code, text, trace))
+                if not bad and s2 not in seen:
+                    seen.add(s2)
+                    queue.append(s2)
+    return len(seen), trans, viol
+
+
 def fmt_state(s):
     sub, paused, sub_all, msubs, reg = s
     f = lambda x: "{" + ",".join(sorted(map(str, x))) + "}"
@@ -298,6 +330,21 @@ def run(prog: Program, chk: Check):
               "C02-I5": where(prog.func(CLI, "Client.subscription_context"))}
     for key, v in sorted(viol.items()):
         I[v["rule"]].bad(key, fwhere.get(v["rule"], ""), v["detail"])
+
+    # ---- M manager-side invariant under arbitrary frames (raw clients are not bound by the client's refusals) -------
+    Mr = chk.rule("C02-M", "manager alone, arbitrary SUBSCRIBE/UNSUBSCRIBE/PAUSE/RESUME frames: Module.subs stays the inverse index and ALL excludes individual registrations", 3,
+                  "a module registered under ALL and under a type receives that type twice; a stale index entry survives remove_module (C07-S)")
+    ns, nt, mviol = manager_closure(prog, U)
+    seenk = set()
+    for code, text, trace in mviol:
+        k = f"manager-only:{code}"
+        if k in seenk:
+            continue
+        seenk.add(k)
+        Mr.bad(k, where(prog.func(MGR, "MessageManager.add_subscription")), f"{text}: {trace}")
+    for i in range(ns):
+        Mr.ok(f"manager-state#{i}", "", "invariant holds in this manager state for every frame")
+    chk.extra_coverage["manager_only"] = {"states": ns, "transitions": nt}
 
     # ---- L1 no mutation of the iterated list (syntactic, sweeps the package) -------------------------------------
     L1 = chk.rule("C02-L1", "no `for x in L` whose body mutates L without leaving the loop", 2,
